@@ -1367,3 +1367,58 @@ def dispatch_terminates_rule(m, rid):
                    "no alternative accepts ends in RecursionError" % (title, registry, "the dispatch re-enters the classes without end"
                                                                       if outcome == "recursion" else outcome), m.loc(f))
     return r
+
+
+# ------------------------------------------------------------------------------------------------
+# every node built from the reader can be given back
+# ------------------------------------------------------------------------------------------------
+def giveback_complete_rule(m, rid):
+    r = RuleResult(rid, "in every function of the grammar that builds nodes from the reader and gives nodes back when it reports no match "
+                        "(calls restore_reader), each local that holds such a node is either given back itself somewhere "
+                        "(`v.restore_reader(reader)`), or put into a collection over which a give-back loop runs, or is the function's "
+                        "only result: a node held in a local of its own and merely joined to the result on success is lost on the "
+                        "no-match path -- its statement vanishes from the source the next matcher sees")
+    r.floor = 3
+    for (p_, q), f in sorted(m.funcs.items()):
+        pp = p_.replace("\\", "/")
+        if "/two/" not in pp or "/tests/" in pp or "reader" not in A.param_names(f.node):
+            continue
+        body = list(A.body_nodes(f.node))
+        if not any(isinstance(c, ast.Call) and isinstance(c.func, ast.Attribute) and c.func.attr == "restore_reader" for c in body):
+            continue
+        node_vars = {}
+        for n in body:
+            if isinstance(n, ast.Assign) and isinstance(n.value, ast.Call) and n.value.args and A.text(n.value.args[0]) == "reader" \
+                    and isinstance(n.value.func, ast.Name) and len(n.targets) == 1 and isinstance(n.targets[0], ast.Name):
+                node_vars.setdefault(n.targets[0].id, n)
+        if not node_vars:
+            continue
+        # collections that are given back: `for o in reversed(L): o.restore_reader(...)` / `for o in L: ...`
+        restored_lists = set()
+        for n in body:
+            if isinstance(n, ast.For) and any(isinstance(c, ast.Call) and isinstance(c.func, ast.Attribute) and c.func.attr == "restore_reader"
+                                              and A.text(c.func.value) == A.text(n.target) for c in ast.walk(n)):
+                it = n.iter
+                if isinstance(it, ast.Call) and A.text(it.func) == "reversed" and it.args:
+                    it = it.args[0]
+                restored_lists.add(A.text(it))
+        no_match_returns = [n for n in body if isinstance(n, ast.Return) and (n.value is None or A.const(n.value, 0) is None)]
+        r.instances += 1
+        bad = []
+        for v, asg in sorted(node_vars.items()):
+            direct = any(isinstance(c, ast.Call) and isinstance(c.func, ast.Attribute) and c.func.attr == "restore_reader"
+                         and A.text(c.func.value) == v for c in body)
+            collected = any(isinstance(c, ast.Call) and isinstance(c.func, ast.Attribute) and c.func.attr in ("append", "insert", "extend")
+                            and A.text(c.func.value) in restored_lists and any(v in {x.id for x in ast.walk(a) if isinstance(x, ast.Name)} for a in c.args)
+                            for c in body)
+            returned_alone = any(isinstance(n, ast.Return) and isinstance(n.value, ast.Name) and n.value.id == v for n in body)
+            later_nomatch = any(n.lineno > asg.lineno for n in no_match_returns)
+            if not (direct or collected or returned_alone) and later_nomatch:
+                bad.append((v, asg))
+        r.ob(not bad, "%s: %s given back or collected" % (q, sorted(node_vars)))
+        for v, asg in bad[:2]:
+            r.fail("%s|not-given-back|%s" % (q, v), "%s builds `%s` from the reader (`%s`) and can report no match afterwards, but `%s` is never "
+                   "given back: it is neither restored itself nor put into a collection that the give-back loop covers (%s).  The "
+                   "statement it consumed disappears from what the next matcher reads -- an opening statement lost this way leaves its "
+                   "END (or its missing END) unnoticed" % (q, v, A.text(asg.value)[:40], v, sorted(restored_lists) or "none"), m.loc(f, asg))
+    return r
